@@ -1,17 +1,63 @@
-"""Float text I/O and base changes (C08; C16 for "parsers return Err, never panic")."""
+"""Float text I/O and base changes (C08; C16 for "parsers return Err, never panic").  Only units that fully verify are
+listed.  Verus vocabulary: contracts/lib/fio_fmt_stubs.rs (Formatter sink, fmt_fix_rounded / fmt_sci_rounded),
+fio_convbase.rs (ilog_spec, xsame, cb_pre / cb_post), fio_parse_stubs.rs (ASCII string model, documented grammar
+FloatText / grammar / ft_mant / ft_exp / ft_prec), fio_cut_tail.rs (lowering rule D20).
+Annotated copies: contracts/annot/float/{fmt,convbase,parse}/."""
 
 VERUS = {
+    # float/src/fmt.rs Repr::fmt_round (`{:.N}`) and Repr::fmt_round_scientific (`{:.Ne}`, also binary / octal / hex forms):
+    # the PREFIX up to the call of the digit printer (rule D20): infinities print as inf / -inf; the number of dropped
+    # digits comes from the exact digit count and the significand handed to the printer is the rounding under R of the value
+    # to N fractional digits resp. N+1 significant digits (4N+4 bits for `{:.Nx}`)
     'float_fmt_round': {'file': 'float_fmt_round.rs', 'w32': False},
+    # float/src/utils.rs ilog_exact: the exponent k >= 1 with base^k == n, 0 if n is no such power (sound and complete)
+    'float_ilog_exact': {'file': 'float_ilog_exact.rs', 'w32': False},
+    # float/src/convert.rs Context::convert_base (integer-only shortcuts: same base, infinity, NewB = B^k, B = NewB^k) and
+    # FBig::with_base_and_precision: exact re-basing (s1 * NewB^e1 == sig * B^e), one repr_round to the requested precision,
+    # Exact results normalised, result tagged with the requested precision
+    'float_convert_base': {'file': 'float_convert_base.rs', 'w32': False},
+    # float/src/parse.rs Repr::from_str_native: an accepted ASCII text reads under the documented grammar with
+    # precision = number of written digits (4 bits per digit of a 0x literal, '_' not counted) and
+    # significand * B^exponent == the written value, normalised; no panic on the covered inputs
+    # (one large function: 12-17 s of SMT, rlimit use ~80 of the 400 granted; the default 10 is not enough)
+    'float_parse': {'file': 'float_parse.rs', 'w32': False, 'rlimit': 400},
+    # float/src/parse.rs FBig::from_str_native (behind FromStr): the Repr of float_parse, context precision = digit count
+    'float_parse_fbig': {'file': 'float_parse_fbig.rs', 'w32': False},
 }
 
-KANI = {
-    'float_parse': {
-        'package': 'dashu-float', 'target': 'float/src/parse.rs', 'file': 'float_parse.rs',
-        'harnesses': {
-            'vk_float_parse_b2_n3': {'kind': 'bounded', 'bound': 'dev'},
-            'vk_float_parse_b10_n3': {'kind': 'bounded', 'bound': 'dev'},
-        },
-    },
-}
+_UND_FMT = ('printing: only the rounding step in front of the digit printer is under contract (float_fmt_round, rule D20: the '
+            'tail of fmt_round / fmt_round_scientific -- String buffers, write!, Formatter width / fill / alignment / sign, '
+            'placement of the radix point, exponent text, padding zeros -- is NOT verified); the Formatter sink and '
+            'utils::{digit_len, split_digits_ref} are trusted stubs. Observed in the unverified tail (not claimed by any check): '
+            '`{:.3e}` of 9.9996 prints `1.0000e1` (a carry into a new digit is printed with one fractional digit too many).')
 
-PROP_UNITS = {}
+_UND_PARSE = ('parsing: Repr::from_str_native is proved against an ASCII string model (opaque `str` stub with the contracts of '
+              'the core::str methods; non-ASCII input outside the contract) and the ASSUMED contract of UBig::from_str_radix '
+              '(positional value, optional leading +). Proved for accepted texts only: that malformed text is rejected is not '
+              'part of the contract (observed: base 2 `0x.` is accepted as zero with precision 0). KNOWN DEFECT REGIONS excluded '
+              'by precondition: (1) a `+` at the start of the integer part (after the sign / 0x prefix) or of the fraction '
+              'part is accepted and counted as a digit position: "1.+5" = 1.05 (precision 3), "-+5" = -5 (precision 2), '
+              '"0x1.+8" = 1.03125 (precision 12); (2) `exponent -= fract_digits` overflows isize for a scale within 4*len of '
+              'isize::MIN (panic in debug builds instead of Err). FromStr::from_str (one-line forwarder to FBig::from_str_native, a trait-impl method) is '
+              'not a separate unit. A bounded Kani group on the real parser was tried '
+              'and abandoned: 3 symbolic characters in base 2 exceed 600 s / 5 GB of CBMC.')
+
+_UND_BASE = ('base change: only the integer-only shortcuts of Context::convert_base are under contract; the general path '
+             '(ln / exp at doubled precision, f32 estimates) and the small-exponent path stay undecided, and so do '
+             'with_base / to_decimal / to_binary (target precision computed from f32 log2 bounds). KNOWN DEFECTS excluded by '
+             'precondition: the shortcuts "same base" and "B is a power of NewB" (and, outside the contract, the small '
+             'non-negative exponent path) return Exact(..) without rounding to the target precision: '
+             'DBig 1.2345 .with_base_and_precision::<10>(2) = Exact(12345e-4, precision 2); FBig<_,16> 1.234 '
+             '.with_base_and_precision::<2>(4) = Exact(1165 * 2^-10, precision 4); FBig<_,2> 1111011b3 '
+             '.with_base_and_precision::<10>(2) = Exact(984). ilog_exact overflows a word (debug panic / endless loop in '
+             'release) for bases >= 2^32: precondition.')
+
+_UND_RT = ('round trip print-then-parse: not decided. The printer tail is not hosted by Verus (see above) and the parser '
+           'alone exceeds CBMC (3 symbolic characters: > 600 s); a proof would compose float_parse with a contract of the '
+           'printer tail stating that its output reads under the same grammar as (significand, exponent).')
+
+PROP_UNITS = {
+    'C08': {'verus': ['float_fmt_round', 'float_ilog_exact', 'float_convert_base', 'float_parse', 'float_parse_fbig'],
+            'undecided': [_UND_FMT, _UND_PARSE, _UND_BASE, _UND_RT]},
+    'C16': {'verus': ['float_parse', 'float_parse_fbig', 'float_fmt_round', 'float_ilog_exact', 'float_convert_base']},
+}
